@@ -13,7 +13,7 @@ from ..report import Report
 from ..table import fmt_val
 from .c06 import _is_method, window_shape
 from .windows import WindowSpec, arg_of, loop_idioms, param_roles, prunes, unverified_loops
-from .common import HANDLE_FAILURE, SELF, attr, path_where, owned_by
+from .common import HANDLE_FAILURE, SELF, attr, exit_value, path_where, owned_by
 from .breaker_table import is_lock_op
 from .failure_table import failure_table
 
@@ -134,7 +134,7 @@ def budget_shape(rep: Report, rid: str, prog: Program) -> None:
                     problem = problem or "capacity test is not `len(_events) + cost > max_retries`"
                 elif cap:
                     n_full += 1
-                    if apps or bulk or p.exit != ("return", ("const", False)):
+                    if apps or bulk or exit_value(p) != ("const", False):
                         problem = problem or f"full window must return False without recording; found appends={len(apps)}, result {show(p.exit[1])}"
                     if prs[0].index > max((i for i, it in enumerate(p.items) if it[0] == "cond" and it[3].info.get("loop_test_of") is None), default=0):
                         problem = problem or "capacity is tested before pruning"
@@ -145,7 +145,7 @@ def budget_shape(rep: Report, rid: str, prog: Program) -> None:
                     if its and its[0].recv[0] == "pure" and its[0].recv[1] == "range" and len(its[0].recv[2]) == 1:
                         trip = its[0].recv[2][0]
                     in_loop = bool(apps)
-                    if p.exit != ("return", ("const", True)):
+                    if exit_value(p) != ("const", True):
                         problem = problem or f"granted path returns {show(p.exit[1])}"
                     if bulk and not apps:
                         # the grant recorded in one call: exactly `cost` copies of this call's clock reading
@@ -231,9 +231,15 @@ def rest(rep: Report, prog: Program) -> None:
         for m in ("consume", "remaining"):
             fm = prog.func(f"{B}.{m}")
             top = engine(prog).cfgs.get(fm)
-            ids = loop_idioms(engine(prog).paths(fm), top, SPEC.window)
+            pm = engine(prog).paths(fm)
+            ids = loop_idioms(pm, top, SPEC.window)
             rep.instance("R10.2", f"{m}|inline-prune-loop")
-            if len(ids) == 1 and not unverified_loops(ids) and all(i.container == EV for i in ids.values()):
+            # ... or they call a prune helper of another shape (a function / a method of the window), verified on its
+            # own paths by windows.helper_prune_info
+            by_helper = [p for p in pm if p.exit[0] == "return"] and all(any(x.how == "helper" and x.container == EV for x in prunes(p, SPEC, ids, top)) for p in pm if p.exit[0] == "return" and any(e.kind == "call" and not e.pure for e in p.events))
+            if by_helper and not ids:
+                rep.ok("R10.2")
+            elif len(ids) == 1 and not unverified_loops(ids) and all(i.container == EV for i in ids.values()):
                 rep.ok("R10.2")
             else:
                 rep.fail("R10.2", f"{m}|inline-prune-loop", f"Budget.{m}: no prune helper and no verified inline prune loop over self._events ({[i.problem for i in ids.values()]})", where=fm.where(), function=fm.qual)
@@ -344,6 +350,10 @@ def invariant(rep: Report, prog: Program) -> None:
             st = {e.loc: e.value for e in p.stores()}
             ev0 = st.get(EV)
             empty = isinstance(ev0, tuple) and ev0[0] == "pure" and "deque" in str(ev0[1]) and not ev0[2]
+            if not empty and isinstance(ev0, tuple) and ev0[0] == "pure" and str(ev0[1]).startswith("new ") and not ev0[2] and not ev0[3]:
+                # a deque subclass of the repository without a constructor of its own, built without arguments
+                cs = [c for c in prog.classes.values() if c.name == ev0[1][4:]]
+                empty = len(cs) == 1 and any(isinstance(b, str) and b.split(".")[-1] == "deque" for k in prog.mro(cs[0]) for b in prog.bases(k)) and not any("__init__" in k.methods or "__new__" in k.methods for k in prog.mro(cs[0]))
             if st.get(MR) == MRP and st.get(attr(SELF, "window_s")) == WSP and empty:
                 rows["ok"] = True
     for k, v in rows.items():
@@ -367,7 +377,8 @@ def invariant(rep: Report, prog: Program) -> None:
         construct = "consume|" + "|".join(p.describe()[-3:])[:120]
         rep.instance("R10.4", construct)
         bulk = [bulk_append(e, p) for e in p.events if e.kind == "call" and _is_method(e, "extend") and e.recv == EV]
-        other_growth = [e for e in p.events if e.kind == "call" and not e.pure and e.recv == EV and not _is_method(e, "append") and not _is_method(e, "popleft") and not (_is_method(e, "extend") and bulk_append(e, p) is not None)]
+        helper_prunes = [x.event for x in prunes(p, SPEC, idioms, top) if x.how == "helper"]
+        other_growth = [e for e in p.events if e.kind == "call" and not e.pure and e.recv == EV and e not in helper_prunes and not _is_method(e, "append") and not _is_method(e, "popleft") and not (_is_method(e, "extend") and bulk_append(e, p) is not None)]
         if other_growth:
             rep.fail("R10.4", "consume|growth", f"Budget.consume: _events is changed by {[e.label for e in other_growth]}", where=path_where(prog, fi.qual, p), function=fi.qual, path=p.describe())
             continue
